@@ -387,6 +387,51 @@ def fn_states_n3(items):
     return {'n': n, 'nt': nt, 'viol': viol}
 
 
+def fn_borrowed(items):
+    """item = [N, pkg, k0, step]: the generator is an ELEMENT taken by indexing from a PauliList of all signed Hermitian
+    generators (numpy: a row view + numpy integer phase; torch: row view + 0-dim view of the list's phase tensor) and the
+    same element object rotates the whole group twice in a row (fresh receiver each time and the same receiver twice);
+    afterwards the lending list must be unchanged."""
+    n = nt = 0
+    viol = []
+    from .. import dom
+    for N, pkg, k0, step in items:
+        herm = dom.hermitian_paulis(N, include_identity=False)
+        Lg = np.array([g for g, p in herm])
+        Lp = np.array([p for g, p in herm])
+        Gs, Ps = group_arrays(N)
+        mkL = lib.PL if pkg == 'py' else lib.tPL
+        rd = (lambda x: (np.array(x.gs), np.array(x.ps))) if pkg == "py" else (lambda x: (np.array(lib.t2n(x.gs)), np.array(lib.t2n(x.ps))))
+        lender = mkL(Lg, Lp)
+        for k in range(k0, len(herm), step):
+            g, p = herm[k]
+            G = lender[k]
+            e1g, e1p, a = ref_rotate(g, p, Gs, Ps)
+            e2g, e2p, _ = ref_rotate(g, p, e1g, e1p)
+            try:
+                lst = mkL(Gs, Ps)
+                lst.rotate_by(G)
+                o1 = rd(lst)
+                lst.rotate_by(G)
+                o2 = rd(lst)
+                lst3 = mkL(Gs, Ps)
+                lst3.rotate_by(G)
+                o3 = rd(lst3)
+            except Exception as e:
+                viol.append(V('C02/borrowed-generator/%s/raises-%s' % (pkg, type(e).__name__), [N, pkg, k0, step], 'rotate_by(list[%d] = %s) raised %s' % (k, ref.g_to_str(g, p), e)))
+                continue
+            n += 3 * len(Gs)
+            nt += 3 * int(a.sum())
+            for nm, (og, op), (eg, ep) in (('first-use', o1, (e1g, e1p)), ('second-use-same-receiver', o2, (e2g, e2p)), ('third-use-fresh-receiver', o3, (e1g, e1p))):
+                if og.shape != eg.shape or (og != eg).any() or (op % 4 != ep).any():
+                    viol.append(V('C02/borrowed-generator/%s/%s' % (pkg, nm), [N, pkg, k0, step], '%s N=%d: generator = element %d (%s) of a PauliList, %s: not U^dag P U' % (pkg, N, k, ref.g_to_str(g, p), nm)))
+                    break
+        lg, lp = rd(lender)
+        if (lg != Lg).any() or (lp % 4 != Lp).any() or (pkg == 'torch' and (lp != Lp).any()):
+            viol.append(V('C02/borrowed-generator/%s/lender-changed' % pkg, [N, pkg, k0, step], '%s N=%d: the PauliList whose elements served as generators changed: phases %s, were %s' % (pkg, N, lp.tolist()[:10], Lp.tolist()[:10])))
+    return {'n': n, 'nt': nt, 'viol': viol}
+
+
 def legs(tier):
     out = []
     Ns = (1, 2) if tier == 'quick' else (1, 2, 3)
@@ -426,4 +471,6 @@ def legs(tier):
                    bound='torchclifford: rotate_by / transform_by, unmasked and through every 1- and 2-qubit mask, on step-sliced, transposed and column-window operand tensors (N=2,3; generators on a stride)'))
     out.append(Leg('torch_masks', fn_mask, tm, chunk=1,
                    bound='torchclifford: every mask of size n<N for N=2,3 and every 2-qubit mask of N=4 (thorough: every mask of N=4) x all generators of n qubits x whole N-qubit group'))
+    bitems = [[N, pkg, k0, 4] for pkg in ('py', 'torch') for N in (1, 2, 3) for k0 in range(4)]
+    out.append(Leg('borrowed_generators', fn_borrowed, bitems, chunk=1, bound='both packages, N<=3: every signed Hermitian generator taken as an ELEMENT of a PauliList (row view, 0-dim phase view) and used three times (same receiver twice, fresh receiver) on the whole Pauli group; lending list unchanged'))
     return out
